@@ -8,6 +8,7 @@ import (
 	"os"
 	"sort"
 	"strings"
+	"time"
 
 	"golang.org/x/tools/go/ssa"
 )
@@ -51,7 +52,7 @@ func (k *c15K) haxPath() string {
 
 func checkC15(c *Ctx) {
 	r := c.R
-	r.Explanation = "Decides structural necessary conditions of C15 on package ttlcache. Only the exported API, haxmap and time are name anchors; unexported fields, the entry type, helpers and the goroutine body are resolved by role among the state fields of Cache and of the package's struct types nested in it (the haxmap.Map field, possibly behind an interface boxed once; the type stored in it and its time.Time / value fields; the field with a Now() method, or a func() time.Time field bound once to it; the integer field NewCache fills from CacheOptions.MaxTTL; the done channel or sync.WaitGroup the goroutine started by NewCache signals and Stop waits on; the stop channel Stop closes and that goroutine selects on) and every rule follows calls into same-package helpers, bound methods, closures, func values with known targets (parameters, locals, fields stored once, elements of literal tables run by a counted loop) and interface calls whose implementation is known; flags, tuples and small enums returned by such helpers stay correlated with the caller's branches; a boolean state field stored once stands for the condition stored. (U1) every return of Get that can report ok=true is reached, on every path, only under `entry.exp > clock.Now()` (strict), entry being the result of that call's lookup on the map and Now() a reading of the cache's own clock taken during the call; (U2) every returning path of Set stores into the map; the stored expiry is, on every path, clock.Now().Add(T*time.Second) with Now() read from the cache clock during Set (an expiry taken from an existing entry is a violation); T is ttl only where maxTTL<=0 or ttl<=maxTTL is established and maxTTL only where maxTTL>0 and ttl>=maxTTL is; the stored value is Set's value parameter; NewCache wires CacheOptions.MaxTTL into the cap field; (U3) every key Cleanup hands to a delete is the key parameter of a ForEach callback over the map, committed on every path only under `clock.Now() >(=) exp` of that callback's own entry — the key slice must also START EMPTY in every run (a make with non-zero length hands n empty-string keys to the delete; a scratch buffer returned by one run and passed back un-truncated hands the earlier runs' keys to it again) and must not receive constant keys — (predicates passed as func values are evaluated in Cleanup's context); every delete the background goroutine can perform (through Cleanup or directly through the helpers Cleanup is made of, whatever the func value) satisfies the same expired-only condition, it performs no other mutation of the store, and none of it is started with `go`; (U4) every return of Stop is preceded by a wait for the done signal (receive on the done channel / WaitGroup.Wait); Stop closes the stop channel, not after waiting; the done signal is given only by the goroutine NewCache starts, on every exit, and is that goroutine's LAST action — no call (cleaning, or any other exit work such as a deferred ticker Stop registered before it) follows it, in the body, in the deferred calls or inside the helper that gives it; every wait of that goroutine is a select with a stop-channel case after which the wait is not reached again; the done signal is armed (make(chan) stored / WaitGroup.Add) before the goroutine starts and NewCache always starts it; (U5) Delete always deletes from the map; in Reset's context the ForEach callback commits every key on every feasible path and never stops the iteration, and the keys are deleted; (U6) the map is mutated only by the audited entry points and Get/Set/Delete pass their key unchanged. NOT decided: the history-level claim itself (rests on haxmap's semantics and the documented cleanup/refresh race); concurrency of Set/Get; ttl<=0 (outside the quantifier: NOTE only); overflow of ttl*time.Second; that the periodic cleaner actually runs Cleanup; a stop signal that is not a channel state field (context, polling), key slices filled by index, Unix()-style time comparisons, flags / func fields stored more than once and helper chains deeper than the inlining bound are UNDECIDED."
+	r.Explanation = "Decides structural necessary conditions of C15 on package ttlcache. Only the exported API, haxmap and time are name anchors; unexported fields, the entry type, helpers and the goroutine body are resolved by role among the state fields of Cache and of the package's struct types nested in it (the haxmap.Map field, possibly behind an interface boxed once; the type stored in it and its time.Time / value fields; the field with a Now() method, or a func() time.Time field bound once to it; the integer field NewCache fills from CacheOptions.MaxTTL; the done channel or sync.WaitGroup the goroutine started by NewCache signals and Stop waits on; the stop channel Stop closes and that goroutine selects on) and every rule follows calls into same-package helpers, bound methods, closures, func values with known targets (parameters, locals, fields stored once, elements of literal tables run by a counted loop) and interface calls whose implementation is known; flags, tuples and small enums returned by such helpers stay correlated with the caller's branches; a boolean state field stored once stands for the condition stored. (U1) every return of Get that can report ok=true is reached, on every path, only under `entry.exp > clock.Now()` (strict), entry being the result of that call's lookup on the map and Now() a reading of the cache's own clock taken during the call; (U2) every returning path of Set stores into the map; the stored expiry is, on every path, exactly clock.Now().Add(T*time.Second) with Now() read from the cache clock during Set (an expiry taken from an existing entry, or that instant / its clock reading passed through Truncate(d) or Round(d) with d>0, is a violation; UTC/Local/In and Round(0)/Truncate(0) keep the instant); T is ttl only where maxTTL<=0 or ttl<=maxTTL is established and maxTTL only where maxTTL>0 and ttl>=maxTTL is; the stored value is Set's value parameter; NewCache wires CacheOptions.MaxTTL into the cap field; (U3) every key Cleanup hands to a delete is the key parameter of a ForEach callback over the map, committed on every path only under `clock.Now() >(=) exp` of that callback's own entry — the key slice must also START EMPTY in every run (a make with non-zero length hands n empty-string keys to the delete; a scratch buffer returned by one run and passed back un-truncated hands the earlier runs' keys to it again) and must not receive constant keys — (predicates passed as func values are evaluated in Cleanup's context); every delete the background goroutine can perform (through Cleanup or directly through the helpers Cleanup is made of, whatever the func value) satisfies the same expired-only condition, it performs no other mutation of the store, and none of it is started with `go`; (U4) every return of Stop is preceded by a wait for the done signal (receive on the done channel / WaitGroup.Wait); Stop closes the stop channel, not after waiting; the done signal is given only by the goroutine NewCache starts, on every exit, and is that goroutine's LAST action — no call (cleaning, or any other exit work such as a deferred ticker Stop registered before it) follows it, in the body, in the deferred calls or inside the helper that gives it; every wait of that goroutine is a select with a stop-channel case after which the wait is not reached again; the done signal is armed (make(chan) stored / WaitGroup.Add) before the goroutine starts and NewCache always starts it; (U5) Delete always deletes from the map; in Reset's context the ForEach callback commits every key on every feasible path and never stops the iteration, and the keys are deleted; (U6) the map is mutated only by the audited entry points and Get/Set/Delete pass their key unchanged. NOT decided: the history-level claim itself (rests on haxmap's semantics and the documented cleanup/refresh race); concurrency of Set/Get; ttl<=0 (outside the quantifier: NOTE only); overflow of ttl*time.Second; that the periodic cleaner actually runs Cleanup; a stop signal that is not a channel state field (context, polling), key slices filled by index, Unix()-style time comparisons, flags / func fields stored more than once and helper chains deeper than the inlining bound are UNDECIDED."
 	r.Assumptions = append(r.Assumptions,
 		"haxmap.Map Get/Set/Del/ForEach have their documented map semantics (ForEach stops when the callback returns false)",
 		"time.Time.After/Before/Equal/Compare/Sub/Add and clock.Now/Since have their documented meaning",
@@ -1122,6 +1123,43 @@ func compositeField(v ssa.Value, name string) (val ssa.Value, n int, plain bool)
 
 const c15Second = int64(1000000000)
 
+// timePeel looks through time.Time wrappers around v: those that keep the
+// instant (UTC, Local, In, Round(0), Truncate(0)) silently; Truncate(d) /
+// Round(d) with d != 0 are reported in rounded ("Truncate(1s)").
+func (x *c15X) timePeel(v ssa.Value, env *c15Env) (ssa.Value, *c15Env, string) {
+	rounded := ""
+	for i := 0; i < 6; i++ {
+		name, args, aenv, ok := x.timeMethod(v, env)
+		if !ok || len(args) == 0 {
+			break
+		}
+		switch name {
+		case "UTC", "Local", "In":
+			v, env = args[0], aenv
+			continue
+		case "Truncate", "Round":
+			if len(args) != 2 {
+				return v, env, rounded
+			}
+			dv, _ := x.strip(args[1], aenv)
+			if kc, isK := dv.(*ssa.Const); isK && kc.Value != nil && kc.Value.Kind() == constant.Int {
+				if d, _ := constant.Int64Val(kc.Value); d <= 0 {
+					v, env = args[0], aenv // only strips the monotonic reading
+					continue
+				} else if rounded == "" {
+					rounded = fmt.Sprintf("%s(%s)", name, time.Duration(d))
+				}
+			} else if rounded == "" {
+				rounded = name + "(a variable duration)"
+			}
+			v, env = args[0], aenv
+			continue
+		}
+		break
+	}
+	return v, env, rounded
+}
+
 // c15CapRule is U2 (expiry formula + cap + value) for one setter; the store
 // sites are looked for in the setter and in everything it calls. Returns the
 // store sites.
@@ -1191,9 +1229,12 @@ func c15CapRule(p *Prog, r *Report, x *c15X, set *ssa.Function, capRule, expRule
 					}
 				}
 				for _, ec := range ctx.cases(ev, en.Env, en.Facts, 0) {
-					name, args, aenv, isTime := x.timeMethod(ec.V, ec.Env)
+					// wrappers that keep the instant (UTC/Local/In, Round(0)/Truncate(0)) are
+					// looked through; Truncate(d)/Round(d) with d > 0 change it
+					pv, penv, rounded := x.timePeel(ec.V, ec.Env)
+					name, args, aenv, isTime := x.timeMethod(pv, penv)
 					if !isTime || name != "Add" || len(args) != 2 {
-						if t := x.term(ec.V, ec.Env); t.Kind == c15Now || t.Kind == c15WallNow {
+						if t := x.term(pv, penv); t.Kind == c15Now || t.Kind == c15WallNow {
 							expBad = "the stored expiry is the current time itself: the TTL is not added"
 						} else if t.Kind == c15Exp {
 							known := strings.Join(ec.Facts.list(), ", ")
@@ -1206,7 +1247,15 @@ func c15CapRule(p *Prog, r *Report, x *c15X, set *ssa.Function, capRule, expRule
 						}
 						continue
 					}
-					bt := x.term(args[0], aenv)
+					bv, benv, brounded := x.timePeel(args[0], aenv)
+					bt := x.term(bv, benv)
+					if rounded == "" {
+						rounded = brounded
+					}
+					if rounded != "" && (bt.Kind == c15Now || bt.Kind == c15WallNow) {
+						expBad = "the stored expiry is not clock.Now()+T*time.Second but that instant (or its clock reading) adjusted by " + rounded + ": the entry expires up to that much earlier (Cleanup then removes an entry whose TTL has not elapsed; Get misses a value for which strictly less than its TTL has elapsed) or later (Get returns it after its TTL) than its TTL says"
+						continue
+					}
 					switch {
 					case bt.Kind == c15WallNow:
 						expBad = "the expiry is stamped from time.Now() instead of the cache's clock (Get compares with the cache clock): entries outlive or undershoot their TTL whenever the clocks differ"
